@@ -8,7 +8,9 @@ import (
 	"runtime"
 	"runtime/debug"
 	"runtime/pprof"
+	"sort"
 	"strconv"
+	"strings"
 	"time"
 )
 
@@ -98,6 +100,30 @@ func main() {
 		os.Exit(cmdReplay(os.Args[2:]))
 	case "selftest":
 		os.Exit(cmdSelftest(os.Args[2:]))
+	case "list": // the registry as markdown (pasted into DESIGN.md section 12)
+		ids := []string{}
+		for _, p := range props {
+			ids = append(ids, p.ID)
+		}
+		sort.Strings(ids)
+		for _, id := range ids {
+			p := findProp(id)
+			fmt.Printf("**%s**\n\n", id)
+			for _, h := range p.Harnesses {
+				extra := ""
+				if h.ThoroughOnly {
+					extra = " *(thorough only)*"
+				}
+				if h.BoundsThorough != "" {
+					extra += " *(thorough: " + h.BoundsThorough + ")*"
+				}
+				fmt.Printf("* `%s`%s — %s\n", h.Name, extra, h.Bounds)
+			}
+			if len(p.Outside) > 0 {
+				fmt.Printf("* outside the claim: %s\n", strings.Join(p.Outside, "; "))
+			}
+			fmt.Println()
+		}
 	default:
 		fmt.Println("unknown command", os.Args[1])
 		os.Exit(2)
